@@ -217,6 +217,10 @@ def shape_cases(tier, seed, rule):
     for n, s in rnd.sample(e2, min(k2, len(e2))):
         out.append({'name': n, 'family': 'width', 'params': {'shape': s},
                     'budget': 40.0 if tier == 'quick' else 90.0})
+    if tier == 'quick':
+        for n, s in gen_docs.random_shapes(60, seed + 5, False, max_nodes=7):
+            if refsem.contains_kind(s, ('grp',)):
+                out.append({'name': n, 'family': 'width', 'params': {'shape': s}, 'budget': 40.0})
     if tier == 'thorough':
         e3 = [x for x in gen_docs.enumerated(3, False)
               if x[0].startswith('e3:') and refsem.contains_kind(x[1], ('grp',))]
